@@ -49,7 +49,23 @@ def run(tier):
             if name.endswith("@resumed"):
                 run["opts"] = {"resumed": True}
             runs.append(run)
-    outs = lsem.run_real(runs, "c11", timeout=2400)
+    # two phases: a few cancel points of every program first; a program whose run does not even end (the interpreter is
+    # stuck where no deadline of its own can reach it) is reported and left out of the full sweep
+    for r_ in runs:
+        r_["deadline_ms"] = 9000
+    probe_ks = {1, 2, 3, K // 2, K}
+    phase1 = [r_ for r_ in runs if index[r_["id"]][1] in probe_ks]
+    outs = lsem.run_real(phase1, "c11p", timeout=1800)
+    stuck = set()
+    for rid, o in outs.items():
+        if o["outcome"][0] in ("hang", "crash"):
+            stuck.add(index[rid][0])
+    rest = [r_ for r_ in runs if r_["id"] not in outs and index[r_["id"]][0] not in stuck]
+    outs.update(lsem.run_real(rest, "c11", timeout=2400))
+    for r_ in runs:      # the cancel points of a stuck program that were not run count as what its probes showed
+        if r_["id"] not in outs:
+            ci_, k_ = index[r_["id"]]
+            outs[r_["id"]] = dict(next(o for rid, o in outs.items() if index[rid][0] == ci_ and o["outcome"][0] in ("hang", "crash")), id=r_["id"], skipped=True)
     recs = []
     per = {}
     for rid, o in outs.items():
@@ -66,6 +82,10 @@ def run(tier):
             if oc == "budget" and o["outcome"][1:] == ["never-done"]:
                 # the cancel point was never reached (no k-th dispatch poll happened): nothing to judge
                 unreached += 1
+                skipped.add((ci, k))
+                rl.append({"emits": [], "outcome": ["err", ["s", []]], "after": 0, "cancelsp": 0, "cancelemits": 0, "cancelled": False})
+                continue
+            if o.get("skipped"):
                 skipped.add((ci, k))
                 rl.append({"emits": [], "outcome": ["err", ["s", []]], "after": 0, "cancelsp": 0, "cancelemits": 0, "cancelled": False})
                 continue
